@@ -69,7 +69,8 @@ def impl(case):
                 outputs = {f"o{i}": f"{pre}n{case['names'][i]}/op/x" for i in range(case["nn"])}
                 res = c.run(simulation_time=float(Fr(case["T"])), step_size=float(Fr(case["dt"])), solver=case["solver"], inputs=inputs or None,
                             outputs=outputs, vectorize=case["vectorize"], in_place=False, verbose=False, clear=True,
-                            float_precision="float64", backend="default")
+                            float_precision="float64", backend=case.get("backend", "default"), cutoff=float(Fr(case.get("cutoff", 0))),
+                            **({"sampling_step_size": float(Fr(case["dts"]))} if case.get("dts") else {}))
                 vals = np.asarray(res.values, dtype=np.float64)
                 if list(res.columns) != list(outputs) or vals.shape != (len(res.index), case["nn"]):
                     return {"raised": "BadFrame", "msg": f"columns={list(res.columns)} shape={vals.shape}"}
@@ -192,13 +193,23 @@ def make_exact(case):
 def gen_fixed(rng):
     nn = rng.choice([1, 2, 2, 3, 3]) if rng.random() < 0.9 else rng.choice([10, 11, 12])      # 1-D broadcast to >= 10 nodes (D85)
     dt = Fr(1, 2 ** rng.choice([0, 1, 2, 3]))
-    steps = rng.randint(2, 9) if nn < 10 else rng.randint(2, 4)
-    T = steps * dt
+    # every backend with its own fixed-step loop, with store_step in {1,2,3,4} and a cutoff.  torch rejects heun; jax + heun
+    # with a time-dependent field (every case here) is the class of finding D16 (corrector at t+1), owned by C02/C03
+    backend = rng.choice(["default"] * 6 + ["torch"] * 2 + ["jax"] * 3)
+    mult = rng.choice([1, 1, 2, 2, 3, 4])
+    steps = mult * (rng.randint(1, 4) if nn < 10 else rng.randint(1, 2))
+    if steps < 2:
+        steps = 2 * mult
+    T = steps * dt                                            # a multiple of the sampling step: C03's rows_fit holds
     vectorize = rng.random() < 0.6
     depth = rng.choice([0, 0, 0, 1, 1, 2, 2, 3])
-    extra = rng.choice([0, 0, 0, 1, 3]) if rng.random() < 0.93 else -1          # a too short array: IndexError
+    extra = rng.choice([0, 0, 0, 1, 3]) if (rng.random() < 0.93 or backend == "jax") else -1   # a too short array: IndexError (jax clamps instead)
     x0, W, names = gen_net(rng, nn)
-    case = dict(kind="fixed", solver=rng.choice(["euler", "heun"]), vectorize=vectorize, depth=depth,
+    r = rng.random()
+    nrows = steps // mult
+    cutoff = Fr(0) if r < 0.4 else mult * dt * rng.randint(0, nrows) if r < 0.75 else mult * dt * rng.randint(0, nrows) + mult * dt * rng.choice([Fr(1, 2), Fr(-1, 4)])
+    case = dict(kind="fixed", solver="euler" if backend != "default" else rng.choice(["euler", "heun"]), backend=backend,
+                dts=None if (mult == 1 and rng.random() < 0.5) else str(mult * dt), cutoff=str(cutoff), vectorize=vectorize, depth=depth,
                 udef=str(rng.choice([0, 0, Fr(1, 2), 1, Fr(-1, 2), 2])), prelude=(not vectorize) and rng.random() < 0.3, T=str(T), dt=str(dt), nn=nn,
                 x0=[str(v) for v in x0], W=[[str(v) for v in r] for r in W], names=names,
                 inputs=gen_inputs(rng, nn, vectorize, max(1, steps + extra)))
@@ -244,23 +255,24 @@ HEADER = """From Coq Require Import List ZArith QArith Qcanon Bool Arith.
 From PV Require Import History Solver Interp Inputs Corr.
 Import ListNotations.
 Local Open Scope nat_scope.
-Record tcase := { adaptive : bool; sv : solver; vec : bool; cdepth : nat; cT : Qc; cdt : Qc; cudef : Qc; cW : list row;
+Record tcase := { adaptive : bool; sv : solver; vec : bool; cdepth : nat; cT : Qc; cdt : Qc; cdts : option Qc; ccut : Qc; cudef : Qc; cW : list row;
                   cin : list (arr * list nat); cx0 : row; cts : list Qc }.
+Definition dts_of c := match cdts c with Some d => d | None => cdt c end.
 Fixpoint collect (l : list (option row)) : option (list row) :=
   match l with [] => Some [] | Some r :: l' => option_map (cons r) (collect l') | None :: _ => None end.
 Definition implO (c : tcase) : outcome :=
   if adaptive c then
     match collect (map (fun t => vf_adaptive (cdt c) (cudef c) (cW c) (cin c) t (cx0 c)) (cts c)) with Some rows => Rows rows | None => ErrShape end
-  else run_inputs (sv c) (vec c) (cdepth c) (cT c) (cdt c) (cudef c) (cW c) (cin c) (cx0 c).
+  else run_inputs (sv c) (vec c) (cdepth c) (cT c) (cdt c) (cdts c) (ccut c) (cudef c) (cW c) (cin c) (cx0 c).
 Definition specO (c : tcase) : outcome :=
   if adaptive c then implO c      (* the adaptive Spec is interp_np on linspace itself: see C08.v for what it means *)
-  else Rows (spec_run_inputs (sv c) (cT c) (cdt c) (cudef c) (cW c) (cin c) (cx0 c)).
+  else Rows (spec_run_inputs (sv c) (cT c) (cdt c) (cdts c) (ccut c) (cudef c) (cW c) (cin c) (cx0 c)).
 Definition okI (p : tcase * outcome) := outcome_eqb (implO (fst p)) (snd p).
 Definition okS (p : tcase * outcome) := outcome_eqb (specO (fst p)) (snd p).
 (* forms the implementation accepts, arrays long enough, >= 2 rows: outside, only model = code is demanded *)
 Definition g_scope (p : tcase * outcome) :=
   adaptive (fst p) || (forallb (input_ok (vec (fst p)) (rnd (cT (fst p) / cdt (fst p)))) (cin (fst p)) &&
-                       rows_fit (cT (fst p)) (cdt (fst p)) (cdt (fst p)) && frame_ok (cT (fst p)) (cdt (fst p))).
+                       rows_fit (cT (fst p)) (cdt (fst p)) (dts_of (fst p)) && frame_ok (cT (fst p)) (dts_of (fst p))).
 """
 
 def coq_outcome(r):
@@ -275,7 +287,7 @@ def coq_case(case, out):
         a = f"(A1 {row(inp['data'])})" if inp["shape"] == "1d" else f"(A2 {clist([row(r) for r in inp['data']])})"
         ins.append(f"({a}, {clist([cnat(i) for i in addressed(case, inp)])})")
     t = (f"{{| adaptive := {cbool(case['kind'] == 'adaptive')}; sv := {'Heun' if case['solver'] == 'heun' else 'Euler'}; "
-         f"vec := {cbool(case['vectorize'])}; cdepth := {cnat(case['depth'])}; cT := {cq(case['T'])}; cdt := {cq(case['dt'])}; cudef := {cq(case.get('udef', 0))}; "
+         f"vec := {cbool(case['vectorize'])}; cdepth := {cnat(case['depth'])}; cT := {cq(case['T'])}; cdt := {cq(case['dt'])}; cdts := {copt(case.get('dts'), cq)}; ccut := {cq(case.get('cutoff', 0))}; cudef := {cq(case.get('udef', 0))}; "
          f"cW := {clist([row(r) for r in case['W']])}; cin := {clist(ins)}; cx0 := {row(case['x0'])}; "
          f"cts := {row(case.get('ts', []))} |}}")
     return f"({t}, {coq_outcome(out)})"
@@ -381,6 +393,9 @@ def check(ctx):
                 broadcast_to_10_or_more=sum(1 for c in cases if c["nn"] >= 10 and any(i["nodes"] == "all" for i in c["inputs"])),
                 n_inputs={str(k): sum(1 for c in cases if len(c["inputs"]) == k) for k in range(4)},
                 shapes={s: sum(1 for c in cases for i in c["inputs"] if i["shape"] == s) for s in ("1d", "col", "2d")},
+                backend={b: sum(1 for c in cases if c["kind"] == "fixed" and c.get("backend", "default") == b) for b in ("default", "torch", "jax")},
+                store_step_gt_1_by_backend={b: sum(1 for c in cases if c["kind"] == "fixed" and c.get("backend", "default") == b and c.get("dts") and Fr(c["dts"]) > Fr(c["dt"])) for b in ("default", "torch", "jax")},
+                cutoff_gt_0=sum(1 for c in cases if Fr(c.get("cutoff", 0)) > 0),
                 nonzero_default=sum(1 for c in cases if Fr(c.get("udef", 0)) != 0), with_prelude=sum(1 for c in cases if c.get("prelude")),
                 default_and_two_inputs_on_different_units=sum(1 for c in cases if Fr(c.get("udef", 0)) != 0 and c["vectorize"] and
                                                               len({tuple(addressed(c, i)) for i in c["inputs"]}) >= 2),
